@@ -9,6 +9,7 @@ import (
 	"connectrpc.com/connect"
 
 	"github.com/streamingfast/bstream"
+	"github.com/streamingfast/substreams/manifest"
 	"github.com/streamingfast/substreams/pipeline/exec"
 )
 
@@ -28,6 +29,9 @@ type graphInfo struct {
 }
 
 func inspectGraph(pkg *PkgDef, output string, prod bool) (*graphInfo, error) {
+	if err := manifest.ValidateModules(pkg.Modules()); err != nil {
+		return nil, err
+	}
 	g, err := exec.NewOutputModuleGraph(output, prod, pkg.Modules(), bstream.GetProtocolFirstStreamableBlock)
 	if err != nil {
 		return nil, err
@@ -129,6 +133,9 @@ func genReq(r *Rng, b *baseGen, pkg *PkgDef, output string, first uint64) ReqSpe
 	}
 	if !q.Prod && r.Chance(1, 3) {
 		q.DebugSnap = gi.stores
+	}
+	if r.Chance(1, 6) {
+		q.FinalOnly = true
 	}
 	return q
 }
